@@ -58,17 +58,22 @@ def gen_symtab(tier):
          "assert!(st.get_mutable(12).is_some() && st.get_mutable(11).is_none(), \"VP:immutable-binding-is-mutable\");",
          "match &*st.get(11).unwrap().borrow() { Value::U8(c) => { assert!(*c.borrow() == v, \"VP:binding-changed-by-other-insert\"); }, _ => { assert!(false, \"VP:binding-kind-changed\"); } }",
          "kani::cover!(true, \"VP:reached\");", "forget(st); forget(c1); forget(c2);"]
-    return H("c05_symbol_table_step", "    " + "\n    ".join(b), WHERE_ST, domain="accept", key="symbol-table/step",
+    h = H("c05_symbol_table_step", "    " + "\n    ".join(b), WHERE_ST, domain="accept", key="symbol-table/step",
              desc="SymbolTable: an immutable insert is invisible to get_mutable; inserting another name leaves it unchanged",
              functions=["SymbolTable::insert/get/get_mutable/contains (src/core/src/program/symbol_table.rs)"],
              bounds="two names (concrete ids), symbolic u8 values", unwind=6, tier=tier)
+    h.attrs = ["#[kani::stub(::std::hash::RandomState::new, vp_random_state)]"]
+    h.rec_limit = 1
+    return h
 
 
 def plan(tier, seed):
     hs = [gen_scalar("f64", "quick"), gen_scalar("u8", "thorough"), gen_scalar("bool", "thorough"),
-          gen_matrix("f64", "quick"), gen_matrix("u8", "thorough"), gen_symtab("quick")]
+          gen_matrix("f64", "quick"), gen_matrix("u8", "thorough"), gen_symtab("thorough")]
     return {
         "harnesses": hs,
+        "incrate_prelude": {WHERE: "  use nalgebra::{DVector, DMatrix, RowDVector};\n",
+                            WHERE_ST: "  pub fn vp_random_state() -> ::std::hash::RandomState { unsafe { ::std::mem::transmute::<[u64; 2], ::std::hash::RandomState>([1u64, 2u64]) } }\n"},
         "explanation": "Kani/CBMC over detach_variable_value (the only step between evaluating `y := x` and storing y) and one SymbolTable step, "
                        "with the cell contents symbolic",
         "bounds": "scalars f64/u8/bool, 1x2 matrices f64/u8; one definition followed by one write through the source's cell",
